@@ -49,13 +49,15 @@ def gen_base(rng):
     ct = tissue.cell_type(gid=gid, K=2.5e3, Pmax=tissue.INF, ka=ka, isoratio=iso, angreg=kreg,
                           fts=[tissue.face_type(i, tension=gam[i], bend=bend[i]) for i in range(3)])
     types = [rng.randrange(3) if rng.random() < 0.7 else 0 for _ in f]
-    return dict(n=n, f=f, ct=ct, types=types, term=term, P=P, size=size)
+    # a few random edge merges/splits before the force computation: the cell then has unused node and face slots
+    pre = rng.choice([0, 0, 1, 3, 8]) if len(f) >= 20 else 0
+    return dict(n=n, f=f, ct=ct, types=types, term=term, P=P, size=size, pre=pre, preseed=rng.randrange(1 << 30))
 
 
 def fmt(c, nodes=None):
     p = tissue.params()
     n = nodes if nodes is not None else c["n"]
-    return tissue.fmt_tissue(p, [c["ct"]], [(0, n, c["f"])]) + " F %d %s %d " % (c["term"], hx(c["P"]), len(c["f"])) + " ".join(str(t) for t in c["types"])
+    return tissue.fmt_tissue(p, [c["ct"]], [(0, n, c["f"])]) + " F %d %s %d " % (c["term"], hx(c["P"]), len(c["f"])) + " ".join(str(t) for t in c["types"]) + " PRE %d %d" % (c["pre"], c["preseed"])
 
 
 def parse_out(line):
@@ -131,7 +133,7 @@ def oracle(c, o, rng):
         x = cross(r, F[i]); tq = [tq[k] + x[k] for k in range(3)]; tqabs += norm(r) * norm(F[i])
     if norm(tq) > tol * tqabs * 10:
         return "net_torque_zero(%s): |sum r x f| / sum|r||f| = %.3g" % (term, norm(tq) / tqabs)
-    faces = [(a, b, cc) for a, b, cc, ty in o["faces"]]
+    faces = [(a, b, cc) for a, b, cc, ty in o["faces"] if ty >= 0]
     if c["term"] == 0 and o["P"] != 0:
         # pressure force on node i = P * dV/dx_i ; V is affine in each node: exact difference quotient
         for i in rng.sample(live, min(6, len(live))):
@@ -156,7 +158,7 @@ def oracle(c, o, rng):
             d = [rng.gauss(0, 1) for _ in range(3)]; l = norm(d); d = [x / l for x in d]
             want = 0.0
             for (a, b, cc, ty) in o["faces"]:
-                if i in (a, b, cc):
+                if ty >= 0 and i in (a, b, cc):
                     pp = [list(nodes[j]) for j in (a, b, cc)]; pm = [list(nodes[j]) for j in (a, b, cc)]
                     k = (a, b, cc).index(i)
                     pp[k] = [nodes[i][m] + h * d[m] for m in range(3)]; pm[k] = [nodes[i][m] - h * d[m] for m in range(3)]
@@ -170,7 +172,7 @@ def oracle(c, o, rng):
 
 def run(ck):
     nbase = 130 if ck.tier == "quick" else 3000
-    ck.cov["rule"] = ("case = one real cell (tetrahedron..icosphere level 2, anisotropic, vertex noise, dents; 1e-6..1 in size; 0..1e3 sizes from the origin) with generated parameters (per-face-type tensions and bending moduli zero and non-zero, area elasticity, isoperimetric ratio, angle regularisation, pressure of both signs) x one force term (pressure / tension+elasticity / bending / angle regularisation / apply_internal_forces) + a rigidly moved twin; non-trivial = cases whose force field is not identically zero")
+    ck.cov["rule"] = ("case = one real cell (tetrahedron..icosphere level 2, anisotropic, vertex noise, dents, 0-8 random edge merges/splits beforehand so that node and face slots are unused; 1e-6..1 in size; 0..1e3 sizes from the origin) with generated parameters (per-face-type tensions and bending moduli zero and non-zero, area elasticity, isoperimetric ratio, angle regularisation, pressure of both signs) x one force term (pressure / tension+elasticity / bending / angle regularisation / apply_internal_forces) + a rigidly moved twin; non-trivial = cases whose force field is not identically zero")
     ok = ck.proofs()
     if not ok:
         ck.report(dict(log=ck.proof_res["log"][-3000:]), unchecked="Properties_C02.vo", what="proof obligations of C02 no longer check")
